@@ -215,6 +215,26 @@ func checkC14(c *core.Ctx, l *core.Ledger) {
 	}
 	// hashable set == convertible set
 	hs := switchTrueSet(c, "wire", "isHashable")
+	// decided by evaluation rather than by the shape of the function (switch, table, if-chain)
+	if f := c.SSAFunc(c.LookupFunc("wire", "isHashable")); f != nil && len(f.Params) == 1 {
+		var dom []int64
+		byCode := map[int64]string{}
+		for n, k := range wireTypeCodes {
+			dom = append(dom, k)
+			byCode[k] = n
+		}
+		tab, prob := c.FiniteTable(f, 0, dom)
+		if len(prob) == 0 {
+			var names []string
+			for k, v := range tab {
+				if v.Kind == core.CBool && v.B {
+					names = append(names, byCode[k])
+				}
+			}
+			sort.Strings(names)
+			hs = strings.Join(names, ",")
+		}
+	}
 	cs := switchNonPanicSet(c, "wire", "toHashable")
 	l.Check(hs != "" && hs == cs, "EQ-EXH", "hashable-table", "", "isHashable accepts exactly the types toHashable converts: {"+hs+"}", "isHashable accepts {"+hs+"} but toHashable converts {"+cs+"}: a hashable fast path can panic or a type is needlessly slow")
 	l.Floor("EQ-EXH", 3)
